@@ -111,6 +111,7 @@ impl Prop for C05 {
             "capacity_fault_in_terminator",
             "formatter_fault_in_message_start",
             "empty_unit_between_units",
+            "tolerant_handler_meets_lexical_error",
         ];
         v.into_iter().map(String::from).collect()
     }
@@ -185,6 +186,28 @@ impl Prop for C05 {
                         }
                         t.steps.push(send(m, FmtCfg::Vec));
                         break;
+                    }
+                }
+                // F3 in parameters met by a tolerant handler (it notes pull errors and carries on):
+                // the lexical error must still abort the message
+                {
+                    let kind = *rng.pick(ELEMENT_FAULTS);
+                    let mut m = base.clone();
+                    let mut uu = m.units[i].clone();
+                    if apply_param_fault(&mut rng, &mut uu, kind, last, &mut uniq) {
+                        uu.plan.swallow = true;
+                        // pull everything that is there now, and one more
+                        uu.plan.pulls = (0..uu.params.len() + 1)
+                            .map(|_| Pull {
+                                req: rng.chance(1, 2),
+                                ty: PullTy::Tok,
+                            })
+                            .collect();
+                        m.units[i] = uu;
+                        if last {
+                            m.end = B::new();
+                        }
+                        t.steps.push(send(m, FmtCfg::Vec));
                     }
                 }
             }
@@ -344,6 +367,9 @@ impl Prop for C05 {
                         }
                         _ => {}
                     }
+                }
+                if s.msg.units.iter().any(|u| u.plan.swallow && u.pfault.is_some()) {
+                    stats.probe("tolerant_handler_meets_lexical_error");
                 }
                 if s.msg.units.iter().filter(|u| u.plan.fail.is_some()).count() >= 2 {
                     stats.probe("double_fault_first_wins");
